@@ -120,6 +120,10 @@ func (ex *Exec) intrinsic(fn *ssa.Function, args []Value) (Value, bool) {
 	case "github.com/trzsz/trzsz-go/trzsz.tmuxRefreshClient":
 		ex.stubsUsed[name]++
 		return nil, true
+	case "(*github.com/trzsz/trzsz-go/trzsz.zmodemTransfer).showProgress":
+		// progress text of the zmodem bridge (float formatting): outside every claim
+		ex.stubsUsed[name]++
+		return nil, true
 	case "bytes.Contains":
 		ex.stubsUsed[name]++
 		hay, needle := ex.sliceBytes(args[0].(Slice)), ex.sliceBytes(args[1].(Slice))
